@@ -69,7 +69,11 @@ func (w *c13World) pdir(n int) string { return filepath.Join(w.dir, "policies", 
 
 func (w *c13World) writePolicy(p *c13Policy) {
 	d := w.pdir(p.n)
-	os.MkdirAll(filepath.Join(d, "code", "ipv6"), 0755)
+	// the ipv6 directory only exists if some device has IPv6 code
+	os.MkdirAll(filepath.Join(d, "code"), 0755)
+	if p.code[1] != 0 {
+		os.MkdirAll(filepath.Join(d, "code", "ipv6"), 0755)
+	}
 	os.WriteFile(filepath.Join(d, "code", "router"), []byte(fmt.Sprintf("ipv4 code version %d\n", p.code[0])), 0644)
 	// version 0 = the policy has no such file for the device
 	if p.code[1] != 0 {
